@@ -189,7 +189,7 @@ Definition udp_process (s : udp_sock) (src : ipaddr) (sport : Z) (dst : ipaddr) 
 
 (* the body of the dequeue_with closure up to the emit call: None = "dropping", return Ok(()) *)
 Definition udp_dispatch_packet (ev : env) (s : udp_sock) (m : dmeta) (payload : list Z)
-  : outcome (option ippacket) :=
+  : option ippacket :=
   let hop := match u_hop s with Some h => h | None => DEFAULT_HOP_LIMIT end in
   let src := match dm_local m with
              | Some a => Some a
@@ -199,11 +199,11 @@ Definition udp_dispatch_packet (ev : env) (s : udp_sock) (m : dmeta) (payload : 
                        end
              end in
   match src with
-  | None => Ok None
+  | None => None
   | Some src =>
-      if negb (a_ver src =? a_ver (dm_addr m)) then Ok None      (* different IP versions: "dropping" *)
-      else Ok (Some (mkPkt 1 src (dm_addr m) PROTO_UDP hop (u_port s) (dm_port m) payload
-                           (wudp_HEADER_LEN + zlen payload)))
+      if negb (a_ver src =? a_ver (dm_addr m)) then None         (* different IP versions: "dropping" *)
+      else Some (mkPkt 1 src (dm_addr m) PROTO_UDP hop (u_port s) (dm_port m) payload
+                       (wudp_HEADER_LEN + zlen payload))
   end.
 
 (* dispatch(cx, emit): result code 0 = Ok(()), otherwise the emit error *)
@@ -212,10 +212,8 @@ Definition udp_dispatch {E : Type} (ev : env) (s : udp_sock)
   do '(tx, e', r) <- pq_dequeue_with (u_tx s)
        (fun m payload e =>
           match udp_dispatch_packet ev s m payload with
-          | Panic => Panic
-          | Err x => Err x
-          | Ok None => Ok (e, EMIT_OK)
-          | Ok (Some p) => emit p e
+          | None => Ok (e, EMIT_OK)
+          | Some p => emit p e
           end) e;
   Ok (udp_set_tx s tx, e', match r with None => EMIT_OK | Some c => c end).
 
@@ -439,21 +437,21 @@ Definition raw_process (s : raw_sock) (r : iprepr) (payload : list Z) : outcome 
 (* the dequeue_with closure of raw::Socket::dispatch up to the emit call, on a symbolic header:
    IpVersion::of_packet (indexes byte 0), Ipv{4,6}Packet::new_checked (length checks),
    the protocol filter, Ipv{4,6}Repr::parse; the payload is packet.payload() *)
-Definition raw_dispatch_packet (s : raw_sock) (buf : list Z) : outcome (option ippacket) :=
+Definition raw_dispatch_packet (s : raw_sock) (buf : list Z) : option ippacket :=
   match buf with
-  | [] => Ok None                                       (* "sent empty packet, dropping" *)
+  | [] => None                                          (* "sent empty packet, dropping" *)
   | ver :: _ =>
       if (ver =? 4) || (ver =? 6) then
         let hl := ip_header_len ver in
-        if zlen buf <? hl then Ok None                  (* new_checked: truncated header *)
+        if zlen buf <? hl then None                     (* new_checked: truncated header *)
         else
           let plen := nth 5 buf 0 in
-          if zlen buf <? hl + plen then Ok None         (* new_checked: shorter than total length *)
-          else if opt_z_differs (r_proto s) (nth 1 buf 0) then Ok None   (* wrong ip protocol *)
-          else if nth 4 buf 0 =? 0 then Ok None         (* unspecified destination *)
-          else Ok (Some (mkPkt 3 (mkA ver (nth 3 buf 0)) (mkA ver (nth 4 buf 0)) (nth 1 buf 0) (nth 2 buf 0)
-                               0 0 (firstn (Z.to_nat plen) (skipn (Z.to_nat hl) buf)) plen))
-      else Ok None                                      (* invalid IP version *)
+          if zlen buf <? hl + plen then None            (* new_checked: shorter than total length *)
+          else if opt_z_differs (r_proto s) (nth 1 buf 0) then None   (* wrong ip protocol *)
+          else if nth 4 buf 0 =? 0 then None            (* unspecified destination *)
+          else Some (mkPkt 3 (mkA ver (nth 3 buf 0)) (mkA ver (nth 4 buf 0)) (nth 1 buf 0) (nth 2 buf 0)
+                           0 0 (firstn (Z.to_nat plen) (skipn (Z.to_nat hl) buf)) plen)
+      else None                                         (* invalid IP version *)
   end.
 
 Definition raw_dispatch {E : Type} (s : raw_sock)
@@ -461,10 +459,8 @@ Definition raw_dispatch {E : Type} (s : raw_sock)
   do '(tx, e', r) <- pq_dequeue_with (r_tx s)
        (fun _ buf e =>
           match raw_dispatch_packet s buf with
-          | Panic => Panic
-          | Err x => Err x
-          | Ok None => Ok (e, EMIT_OK)
-          | Ok (Some p) => emit p e
+          | None => Ok (e, EMIT_OK)
+          | Some p => emit p e
           end) e;
   Ok (raw_set_tx s tx, e', match r with None => EMIT_OK | Some c => c end).
 
@@ -533,6 +529,14 @@ Definition sock_dispatch {E : Type} (ev : env) (s : sock)
 (* head of the tx queue as dispatch will see it (after a leading padding record is removed) *)
 Definition sock_tx_head (s : sock) : option (dmeta * list Z) :=
   match pq_packets (sock_tx s) with x :: _ => Some x | [] => None end.
+
+(* what dispatch makes of a queued datagram: None = silently dropped (documented cases) *)
+Definition sock_prepare (ev : env) (s : sock) (h : dmeta) (d : list Z) : option ippacket :=
+  match s with
+  | SUdp u => udp_dispatch_packet ev u h d
+  | SIcmp i => icmp_dispatch_packet ev i h d
+  | SRaw r => raw_dispatch_packet r d
+  end.
 
 Definition sock_step (ev : env) (s : sock) (op : sop) : outcome (sock * sres) :=
   match op, s with
